@@ -22,6 +22,12 @@ package persistence
 //@ ghost var jsonOkF gset[string]
 //@ ghost var jsonOkI gset[string]
 //@ ghost var decodeFailed bool
+// results of the loads, in call order (lets a caller's contract speak about "the first load of this start")
+//@ ghost var curveLoadCount int
+//@ ghost var curveLoadOK gmap[int]bool
+//@ ghost var mapLoadCount int
+//@ ghost var mapLoadOK gmap[int]bool
+//@ ghost var mapLoadRes gmap[int]int
 
 //@ pure dbWF() bool = forall n string, k string :: dbHas[n][k] ==> n in dbBucket
 //@ pure txWF() bool = forall n string, k string :: txHas[n][k] ==> n in txBucket
@@ -123,12 +129,15 @@ package persistence
 //@   props C14
 //@   returns (data, err)
 //@   requires fans.fanWF(fan) && dbWF()
+//@   ghostret curveLoadOK := curveLoadOK[curveLoadCount := err == nil]
+//@   ghostret curveLoadCount := curveLoadCount + 1
+//@   ensures curveLoadCount == old(curveLoadCount) + 1 && curveLoadOK == old(curveLoadOK)[old(curveLoadCount) := err == nil]
 //@   ensures[C14.load.missing] !old(dbHas)["fans"][fanId(fan)] ==> err != nil && (err == os.ErrNotExist || dbHas == old(dbHas)) && dbHas == old(dbHas) && dbVal == old(dbVal)
 //@   ensures[C14.load.discard] err == nil && old(dbHas)["fans"][fanId(fan)] ==> (decodeFailed == !dbHas["fans"][fanId(fan)])
 //@   ensures[C14.load.roundtrip] err == nil && old(dbHas)["fans"][fanId(fan)] && (old(dbVal)["fans"][fanId(fan)] in jsonOkF) ==> data != nil && dbHas == old(dbHas) && encF(old(dbVal)["fans"][fanId(fan)], data)
 //@   ensures[C14.load.isolated] othersSame("fans", fanId(fan)) && dbVal == old(dbVal)
 //@   ensures dbWF()
-//@   modifies dbBucket, dbHas, dbVal, txBucket, txHas, txVal, decodeFailed
+//@   modifies dbBucket, dbHas, dbVal, txBucket, txHas, txVal, decodeFailed, curveLoadCount, curveLoadOK, mapLoadCount, mapLoadOK, mapLoadRes
 
 //@ func (persistence).DeleteFanPwmData$1
 //@   requires db != nil
@@ -190,12 +199,16 @@ package persistence
 //@   props C14
 //@   returns (data, err)
 //@   requires dbWF()
+//@   ghostret mapLoadOK := mapLoadOK[mapLoadCount := err == nil]
+//@   ghostret mapLoadRes := mapLoadRes[mapLoadCount := ref(data)]
+//@   ghostret mapLoadCount := mapLoadCount + 1
+//@   ensures mapLoadCount == old(mapLoadCount) + 1 && mapLoadOK == old(mapLoadOK)[old(mapLoadCount) := err == nil] && mapLoadRes == old(mapLoadRes)[old(mapLoadCount) := ref(data)]
 //@   ensures[C14.loadmap.missing] !old(dbHas)["fanPwmMap"][fanId] ==> err != nil && dbHas == old(dbHas) && dbVal == old(dbVal)
 //@   ensures[C14.loadmap.discard] err == nil && old(dbHas)["fanPwmMap"][fanId] ==> (decodeFailed == !dbHas["fanPwmMap"][fanId])
 //@   ensures[C14.loadmap.roundtrip] err == nil && old(dbHas)["fanPwmMap"][fanId] && (old(dbVal)["fanPwmMap"][fanId] in jsonOkI) ==> data != nil && dbHas == old(dbHas) && encI(old(dbVal)["fanPwmMap"][fanId], data)
 //@   ensures[C14.loadmap.isolated] othersSame("fanPwmMap", fanId) && dbVal == old(dbVal)
 //@   ensures dbWF()
-//@   modifies dbBucket, dbHas, dbVal, txBucket, txHas, txVal, decodeFailed
+//@   modifies dbBucket, dbHas, dbVal, txBucket, txHas, txVal, decodeFailed, curveLoadCount, curveLoadOK, mapLoadCount, mapLoadOK, mapLoadRes
 
 //@ func (persistence).DeleteFanPwmMap$1
 //@   requires db != nil
@@ -231,7 +244,7 @@ package persistence
 //@   ensures[C14.step.map] forall id string :: id != id2 ==> mapEntrySame(id)
 //@   ensures[C14.step.kind] (op >= 3 ==> forall id string :: curveEntrySame(id)) && (op < 3 ==> forall id string :: mapEntrySame(id))
 //@   ensures dbWF()
-//@   modifies dbBucket, dbHas, dbVal, txBucket, txHas, txVal, decodeFailed, m[_]
+//@   modifies dbBucket, dbHas, dbVal, txBucket, txHas, txVal, decodeFailed, curveLoadCount, curveLoadOK, mapLoadCount, mapLoadOK, mapLoadRes, m[_]
 
 //@ func lemmaCurveHistory
 //@   props C14
@@ -239,7 +252,7 @@ package persistence
 //@   requires forall i int :: 0 <= i && i < len(bs) && bs[i] != nil ==> fans.fanWF(bs[i]) && (fans.dataPtr(bs[i]) != nil ==> ref(*fans.dataPtr(bs[i])) < W)
 //@   requires forall i int :: 0 <= i && i < len(ms) ==> ref(ms[i]) != ref(*fans.dataPtr(a))
 //@   ensures[C14.history.curve] saveErr == nil && loadErr == nil ==> data != nil && mapdom(data) == old(mapdom(*fans.dataPtr(a))) && forall k int :: k in mapdom(data) ==> mapval(data)[k] == old(mapval(*fans.dataPtr(a)))[k] && mapvalk(data)[k] == old(mapvalk(*fans.dataPtr(a)))[k]
-//@   modifies dbBucket, dbHas, dbVal, txBucket, txHas, txVal, decodeFailed, each(map[int]int)[_]
+//@   modifies dbBucket, dbHas, dbVal, txBucket, txHas, txVal, decodeFailed, curveLoadCount, curveLoadOK, mapLoadCount, mapLoadOK, mapLoadRes, each(map[int]int)[_]
 //@   loop 1 "for i := 0; i < len(ops) && i < len(bs) && i < len(ids) && i < len(ms); i++"
 //@     invariant 0 <= i && dbWF() && dbHas["fans"][fanId(a)] && (dbVal["fans"][fanId(a)] in jsonOkF) && encF(dbVal["fans"][fanId(a)], *fans.dataPtr(a))
 //@     invariant mapdom(*fans.dataPtr(a)) == old(mapdom(*fans.dataPtr(a))) && mapval(*fans.dataPtr(a)) == old(mapval(*fans.dataPtr(a))) && mapvalk(*fans.dataPtr(a)) == old(mapvalk(*fans.dataPtr(a)))
@@ -251,7 +264,7 @@ package persistence
 //@   requires forall i int :: 0 <= i && i < len(bs) && bs[i] != nil ==> fans.fanWF(bs[i]) && (fans.dataPtr(bs[i]) != nil ==> ref(*fans.dataPtr(bs[i])) < W)
 //@   requires forall i int :: 0 <= i && i < len(ms) ==> ref(ms[i]) != ref(pwmMap)
 //@   ensures[C14.history.map] saveErr == nil && loadErr == nil ==> data != nil && mapdom(data) == old(mapdom(pwmMap)) && forall k int :: k in mapdom(data) ==> mapval(data)[k] == old(mapval(pwmMap))[k]
-//@   modifies dbBucket, dbHas, dbVal, txBucket, txHas, txVal, decodeFailed, each(map[int]int)[_]
+//@   modifies dbBucket, dbHas, dbVal, txBucket, txHas, txVal, decodeFailed, curveLoadCount, curveLoadOK, mapLoadCount, mapLoadOK, mapLoadRes, each(map[int]int)[_]
 //@   loop 1 "for i := 0; i < len(ops) && i < len(bs) && i < len(ids) && i < len(ms); i++"
 //@     invariant 0 <= i && dbWF() && dbHas["fanPwmMap"][id] && (dbVal["fanPwmMap"][id] in jsonOkI) && encI(dbVal["fanPwmMap"][id], pwmMap)
 //@     invariant mapdom(pwmMap) == old(mapdom(pwmMap)) && mapval(pwmMap) == old(mapval(pwmMap))
@@ -262,4 +275,4 @@ package persistence
 //@   requires fans.fanWF(a) && dbWF()
 //@   ensures[C14.delete.idempotent] err1 == nil && err2 != nil ==> dbHas == old(dbHas) || !dbHas["fans"][fanId(a)]
 //@   ensures[C14.delete.notfound] err1 == nil ==> loadErr != nil && !dbHas["fans"][fanId(a)]
-//@   modifies dbBucket, dbHas, dbVal, txBucket, txHas, txVal, decodeFailed
+//@   modifies dbBucket, dbHas, dbVal, txBucket, txHas, txVal, decodeFailed, curveLoadCount, curveLoadOK, mapLoadCount, mapLoadOK, mapLoadRes
